@@ -90,6 +90,22 @@ int main(int argc, char **argv)
 				r2 = !strcmp(obj, "ctder") ? sm2_ciphertext_from_der(o, &cp, &left) : sm2_signature_from_der(o, &cp, &left); p = re; relen = 0;
 				if (r2 == 1) { if (!strcmp(obj, "ctder")) sm2_ciphertext_to_der(o, &p, &relen); else sm2_signature_to_der(o, &p, &relen); }
 				composite(obj, (uint8_t *)in, dn, dn, 1, r2, left, re, relen, 1); }
+			else if (!strncmp(obj, "sm9", 3)) {
+				// SM9 master and user keys; `lead` zero octets at the top of the master secret (the INTEGER then has fewer than 32 octets)
+				long lead = kv_int(&kv, "lead", 0); uint8_t ksb[32]; for (int i = 0; i < 32; i++) ksb[i] = i < lead ? 0 : (uint8_t)(0x11 + i * 7 + kv_int(&kv, "seed", 1)); if (lead < 32) ksb[lead] |= 0x01;
+				if (!strcmp(obj, "sm9signmaster")) { SM9_SIGN_MASTER_KEY m, t; memset(&m, 0, sizeof m); sm9_z256_from_bytes(m.ks, ksb); sm9_z256_twist_point_mul_generator(&m.Ppubs, m.ks);
+					p = NULL; r1 = sm9_sign_master_key_to_der(&m, &p, &dry); p = buf; if (r1 == 1) r1 = sm9_sign_master_key_to_der(&m, &p, &len); cp = buf; left = len; memset(&t, 0, sizeof t); r2 = sm9_sign_master_key_from_der(&t, &cp, &left);
+					same = r2 == 1 && !memcmp(m.ks, t.ks, 32); p = re; if (r2 == 1) sm9_sign_master_key_to_der(&t, &p, &relen); composite(obj, buf, len, dry, r1, r2, left, re, relen, same); }
+				else if (!strcmp(obj, "sm9encmaster")) { SM9_ENC_MASTER_KEY m, t; memset(&m, 0, sizeof m); sm9_z256_from_bytes(m.ke, ksb); sm9_z256_point_mul_generator(&m.Ppube, m.ke);
+					p = NULL; r1 = sm9_enc_master_key_to_der(&m, &p, &dry); p = buf; if (r1 == 1) r1 = sm9_enc_master_key_to_der(&m, &p, &len); cp = buf; left = len; memset(&t, 0, sizeof t); r2 = sm9_enc_master_key_from_der(&t, &cp, &left);
+					same = r2 == 1 && !memcmp(m.ke, t.ke, 32); p = re; if (r2 == 1) sm9_enc_master_key_to_der(&t, &p, &relen); composite(obj, buf, len, dry, r1, r2, left, re, relen, same); }
+				else if (!strcmp(obj, "sm9signkey")) { SM9_SIGN_MASTER_KEY m; SM9_SIGN_KEY k, t; memset(&m, 0, sizeof m); sm9_z256_from_bytes(m.ks, ksb); sm9_z256_twist_point_mul_generator(&m.Ppubs, m.ks); r1 = sm9_sign_master_key_extract_key(&m, "Alice", 5, &k);
+					p = NULL; if (r1 == 1) r1 = sm9_sign_key_to_der(&k, &p, &dry); p = buf; if (r1 == 1) r1 = sm9_sign_key_to_der(&k, &p, &len); cp = buf; left = len; memset(&t, 0, sizeof t); r2 = sm9_sign_key_from_der(&t, &cp, &left);
+					same = r2 == 1 && sm9_z256_point_equ(&k.ds, &t.ds) == 1; p = re; if (r2 == 1) sm9_sign_key_to_der(&t, &p, &relen); composite(obj, buf, len, dry, r1, r2, left, re, relen, same); }
+				else { SM9_ENC_MASTER_KEY m; SM9_ENC_KEY k, t; memset(&m, 0, sizeof m); sm9_z256_from_bytes(m.ke, ksb); sm9_z256_point_mul_generator(&m.Ppube, m.ke); r1 = sm9_enc_master_key_extract_key(&m, "Bob", 3, &k);
+					p = NULL; if (r1 == 1) r1 = sm9_enc_key_to_der(&k, &p, &dry); p = buf; if (r1 == 1) r1 = sm9_enc_key_to_der(&k, &p, &len); cp = buf; left = len; memset(&t, 0, sizeof t); r2 = sm9_enc_key_from_der(&t, &cp, &left);
+					same = r2 == 1 && sm9_z256_twist_point_equ(&k.de, &t.de) == 1; p = re; if (r2 == 1) sm9_enc_key_to_der(&t, &p, &relen); composite(obj, buf, len, dry, r1, r2, left, re, relen, same); }
+			}
 			else if (!strcmp(obj, "name")) { uint8_t nm[512]; size_t nl = 0; r1 = x509_name_set(nm, &nl, sizeof nm, "CN", "Beijing", "Haidian", "PKU", "CS", "Alice"); p = NULL; dry = 0; x509_name_to_der(nm, nl, &p, &dry); p = buf; len = 0; if (r1 == 1) r1 = x509_name_to_der(nm, nl, &p, &len);
 				const uint8_t *d2; size_t d2l; cp = buf; left = len; r2 = x509_name_from_der(&d2, &d2l, &cp, &left); same = r2 == 1 && d2l == nl && !memcmp(d2, nm, nl); p = re; if (r2 == 1) x509_name_to_der(d2, d2l, &p, &relen); composite(obj, buf, len, dry, r1, r2, left, re, relen, same); }
 			continue;
